@@ -16,7 +16,7 @@ LEVEL_NOTE = ("Trusted: Lean kernel (+ standard axioms); hand model of _apply_bi
               "applies ufunc inner loops position-independently; float sum/mean (Σ length·value vs numpy's pairwise summation) differ in "
               "the last ulps -- known finding F16a, judged with a relative-error bound; histogram relies on numpy.histogram itself.")
 TECHNIQUE = "Lean 4 proof of decode(f(x,y)) = zipWith f (decode x) (decode y) by induction over merged boundaries; correspondence"
-DESIGN_REF = "6.16"
+DESIGN_REF = "7"
 LEAN_MODULES = ["NpsVerif.Props.C16"]
 KERNELS = ()
 RULE = ("cases = pair of encoded arrays of equal length (all pairs over 3 letters up to length 3 quick / 4 thorough, + random long-run "
